@@ -204,6 +204,10 @@ pub struct Sim {
     pub slurm: Option<SlurmModel>,
     /// TA certificate files currently served per TAL index.
     pub ta_files: BTreeMap<usize, FileId>,
+    /// Keep one engine alive over all steps (like the server does) instead
+    /// of creating one per run (like the one-shot commands do).
+    pub reuse_engine: bool,
+    pub engine: Option<Engine>,
     /// The step whose validation run is interrupted at every kill point.
     pub crash_step: Option<usize>,
     pub crash_thorough: bool,
@@ -307,6 +311,8 @@ impl Sim {
             exceptions_json: None,
             slurm: None,
             ta_files: BTreeMap::new(),
+            reuse_engine: mix(&[seed, 9]) % 2 == 0,
+            engine: None,
             crash_step: None,
             crash_thorough: false,
             crash_mask: BTreeSet::new(),
@@ -1269,11 +1275,16 @@ impl Sim {
         &mut self, _step: usize
     ) -> Result<(PayloadSnapshot, routinator::metrics::Metrics), String> {
         let config = self.config(true);
-        let engine = Engine::new(&config, true).map_err(|_| {
-            "Engine::new failed".to_string()
-        })?;
+        if self.engine.is_none() || !self.reuse_engine
+            || self.crash_step.is_some()
+        {
+            self.engine = Some(Engine::new(&config, true).map_err(|_| {
+                "Engine::new failed".to_string()
+            })?);
+        }
+        let engine = self.engine.as_ref().unwrap();
         let (report, mut metrics) = ValidationReport::process(
-            &engine, &config, false
+            engine, &config, false
         ).map_err(|err| {
             format!("process failed (fatal={})", err.is_fatal())
         })?;
